@@ -9,7 +9,11 @@ proof  : lean/Pyunicorn/Properties/C15.lean (shuffle / rank remapping are row
          twin_surrogates as a whole; the loop-level model of the kernels —
          np.empty work arrays re-used across series, nR bookkeeping, running
          embedding index, index arithmetic regenerated from surrogates.py and
-         numerics.pyx by translate/gen_arith.py — equals the abstract model)
+         numerics.pyx by translate/gen_arith.py — equals the abstract model;
+         round 3: the neighbour counter in the machine integer the source declares
+         (exact up to n_time = 2^bits, sharp), every store / decrement / scan
+         subscript of _twins_s and _twins_r from the source, RecurrencePlot.
+         twin_surrogates as a whole, a Surrogates object over every call history)
 tie    : correspondence of lean/Pyunicorn/Model/Surrogates.lean with the real
          code on the same inputs, with the random choices *recorded or fed*:
          the module globals `random` / `np` of surrogates.py and `random` of the
@@ -17,7 +21,9 @@ tie    : correspondence of lean/Pyunicorn/Model/Surrogates.lean with the real
          shuffle permutation, the phases, the arrays irfft returns, the
          random.random() stream).  Exact on rationals; the phase multiplication
          is compared in IEEE double with tolerance.  The in-place/copy mode of
-         the phase multiplication is read off the source (ast) on every run.
+         the phase multiplication is read off the source (ast) on every run, and so
+         are the width of the neighbour counter and the re-embedding / cache-key
+         policy of twin_surrogates / twins (obligations + model parameters).
 search : oracle independent of the model on the *unpatched* code: row-wise
          multiset equality, amplitude spectra via numpy.fft.rfft, twin lists
          against the definition on a brute-force recurrence matrix, every
@@ -204,6 +210,82 @@ def phase_mode():
                     return "inplace"
             return "copy"
     return "copy"
+
+
+_TYPE_BITS = {"INT8TYPE": 8, "INT16TYPE": 16, "INT32TYPE": 32, "INT64TYPE": 64}
+
+
+def counter_bits():
+    """width of the machine integer the neighbour counter `nR` of the twin search lives in, read off
+    the source: dtype of `nR = np.empty(n_time, dtype=X)` in Surrogates.twins, X resolved in
+    core/_ext/types.py; the buffer type `ndarray[X_t, ndim=1] nR` of `_twins_s` must be the same
+    type.  Returns (bits | None, dtype name, what was found)."""
+    import re
+    src = open(os.path.join(common.REPO, "src/pyunicorn/timeseries/surrogates.py")).read()
+    name = None
+    for node in ast.walk(ast.parse(src)):
+        if isinstance(node, ast.FunctionDef) and node.name == "twins":
+            for st in ast.walk(node):
+                if isinstance(st, ast.Assign) and len(st.targets) == 1 and \
+                        isinstance(st.targets[0], ast.Name) and st.targets[0].id == "nR" and \
+                        isinstance(st.value, ast.Call):
+                    for kw in st.value.keywords:
+                        if kw.arg == "dtype" and isinstance(kw.value, ast.Name):
+                            name = kw.value.id
+    types = open(os.path.join(common.REPO, "src/pyunicorn/core/_ext/types.py")).read()
+    m = re.search(rf"^{name}\s*=\s*(\w+)\s*$", types, re.M) if name else None
+    bits = _TYPE_BITS.get(m.group(1)) if m else None
+    pyx = open(os.path.join(common.REPO, "src/pyunicorn/timeseries/_ext/numerics.pyx")).read()
+    sig = re.search(r"def _twins_s\((.*?)\):", pyx, re.S)
+    kt = re.search(r"ndarray\[(\w+)_t,\s*ndim=1\]\s*nR", sig.group(1)) if sig else None
+    kname = kt.group(1) if kt else None
+    cast = re.search(r"nR\[j\]\s*=\s*<(\w+)_t>\s*n_time", pyx)
+    cname = cast.group(1) if cast else None
+    found = f"Surrogates.twins: dtype={name}; _twins_s: buffer {kname}_t, cast <{cname}_t>"
+    if name is None or kname != name or cname != name:
+        return None, name, found
+    return bits, name, found
+
+
+def twin_policy():
+    """what Surrogates.twin_surrogates does with the stored embedding, and whether the mutation
+    counter of the embedding setter is part of the cache key of `twins` — the `Policy` of
+    Model/SurrogatesObject.lean.  Returns (reembed, key_mut, what was found)."""
+    src = open(os.path.join(common.REPO, "src/pyunicorn/timeseries/surrogates.py")).read()
+    tree = ast.parse(src)
+    cls = next(n for n in tree.body if isinstance(n, ast.ClassDef) and n.name == "Surrogates")
+    reembed, key_mut, setter_bumps, found = "unknown", False, False, []
+    for fn in cls.body:
+        if not isinstance(fn, ast.FunctionDef):
+            continue
+        if fn.name == "twin_surrogates":
+            def is_embed_assign(st):
+                return isinstance(st, ast.Assign) and any(
+                    isinstance(t, ast.Attribute) and t.attr == "embedding" for t in st.targets) and \
+                    "embed_time_series_array(self.original_data, dimension, delay)" in ast.unparse(st.value)
+            top = [st for st in fn.body if is_embed_assign(st)]
+            nested = [st for st in ast.walk(fn) if is_embed_assign(st) and st not in top]
+            calls_twins = [st for st in fn.body if "self.twins(threshold, min_dist)" in ast.unparse(st)]
+            if top and calls_twins and fn.body.index(top[0]) < fn.body.index(calls_twins[0]):
+                reembed = "always"
+            elif nested:
+                reembed = "ifStale"
+            found.append(f"twin_surrogates: embedding assigned {'unconditionally' if top else 'conditionally' if nested else 'never'}")
+        if fn.name == "twins":
+            for d in fn.decorator_list:
+                u = ast.unparse(d)
+                if "Cached.method" in u and "_mut_embedding" in u:
+                    key_mut = True
+            found.append("twins: " + "; ".join(ast.unparse(d) for d in fn.decorator_list))
+        if fn.name == "__cache_state__":
+            if "self._mut_embedding" in ast.unparse(fn):
+                key_mut = True
+            found.append("__cache_state__: " + ast.unparse(fn.body[-1]))
+        if fn.name == "embedding" and any("setter" in ast.unparse(d) for d in fn.decorator_list):
+            setter_bumps = any(isinstance(st, ast.AugAssign) and "_mut_embedding" in ast.unparse(st.target)
+                               and isinstance(st.op, ast.Add) for st in ast.walk(fn))
+            found.append(f"embedding setter bumps _mut_embedding: {setter_bumps}")
+    return reembed, (key_mut and setter_bumps), "; ".join(found)
 
 
 # --------------------------------------------------------------------------
@@ -457,6 +539,25 @@ def run(ctx):
         HAVE_DRIVER = False
     mode = phase_mode()
     ctx.count(f"phase-multiplication-mode:{mode}")
+    bits, cname, cfound = counter_bits()
+    ctx.count(f"neighbour-counter:{cname}:{bits}-bit")
+    # `int n_time` of the kernels is a C int: the counter theorem must cover every value it can hold
+    ctx.obligation("twins_counter_width_exact covers every n_time a C int holds: the neighbour counter "
+                   f"nR of _twins_s has 2^bits >= 2^31 ({cfound}; bits={bits})", "translator",
+                   bits is not None and bits >= 32,
+                   "the counter wraps for n_time > 2^bits: a state with 2^bits+1 neighbours is taken for an "
+                   "isolated one (twins_counter_wrap_loses_twins); the thorough tier runs n_time = 65537")
+    cbits = bits or 16
+    cdtype = {8: np.int8, 16: np.int16, 32: np.int32, 64: np.int64}[cbits]
+    reembed, key_mut, pfound = twin_policy()
+    ctx.count(f"twin_surrogates-embedding-policy:{reembed}:key_mut={int(key_mut)}")
+    ctx.obligation("twin_surrogates_every_history / twins_cache_coherent are about the code's policy: "
+                   "twin_surrogates re-embeds original_data unconditionally before twins(), the embedding "
+                   f"setter bumps _mut_embedding and that counter is in the cache key of twins ({pfound})",
+                   "translator", reembed == "always" and key_mut,
+                   "see stale_embedding_witness; the history correspondence runs the model with the policy "
+                   "read off the source, the oracle looks for the failing history")
+    pol = f"{'always' if reembed == 'always' else 'ifStale'} {int(key_mut)}"
 
     reqs, impl = [], []          # exact correspondence
     freqs, fimpl = [], []        # float correspondence (phase multiplication)
@@ -575,6 +676,12 @@ def run(ctx):
                         reqs.append(f"aaft {enc_mat(data)} {enc_mat(outs[0])}")
                         impl.append(enc_mat(R))
                         ctx.count("gen:AAFT")
+                    elif exact_ok and np.isfinite(outs[0]).all():
+                        # ties in the ranked array: numpy's order among them is unspecified, the
+                        # multiset of (ranked value, output value) pairs of every row is not
+                        reqs.append(f"aaft {enc_mat(data)} {enc_mat(outs[0])}")
+                        impl.append(("canon", np.array(R, dtype=float), np.array(outs[0], dtype=float)))
+                        ctx.count("gen:AAFT:ties-compared-up-to-tie-order")
                     else:
                         ctx.count("skipped-for-correspondence:ranked-array-has-ties")
                     # first stage: the Gaussian reference in the rank order of the data is what
@@ -583,6 +690,11 @@ def run(ctx):
                         reqs.append(f"rescaled {enc_mat(data)} {enc_mat(rp_.gauss[0])}")
                         impl.append(enc_mat(np_.fft.rfft_in[-1]))
                         ctx.count("gen:AAFT-first-stage")
+                    elif exact_ok and not has_ties(rp_.gauss[0]):
+                        reqs.append(f"rescaled {enc_mat(data)} {enc_mat(rp_.gauss[0])}")
+                        impl.append(("canon", np.array(np_.fft.rfft_in[-1], dtype=float),
+                                     np.array(data, dtype=float)))
+                        ctx.count("gen:AAFT-first-stage:ties-compared-up-to-tie-order")
             else:
                 R, sp = s.refined_AAFT_surrogates(nit, output="both") if nit else \
                     (s.refined_AAFT_surrogates(nit, output="true_amplitudes"), None)
@@ -592,7 +704,13 @@ def run(ctx):
                     struct_bad.append(f"refined_AAFT_surrogates: {len(outs)} irfft / {len(rout)} rfft "
                                       f"calls for n_iterations={nit}")
                 else:
-                    if any(has_ties(o) or np.isnan(o).any() for o in outs) or not exact_ok:
+                    if exact_ok and all(np.isfinite(o).all() for o in outs) and \
+                            any(has_ties(o) for o in outs):
+                        # the result depends on the tie order only through the last ranked array
+                        reqs.append(f"refined {enc_mat(data)} {enc_mat(outs[0])} {enc_mats(outs[1:])}")
+                        impl.append(("canon", np.array(R, dtype=float), np.array(outs[-1], dtype=float)))
+                        ctx.count("gen:refined_AAFT:ties-compared-up-to-tie-order")
+                    elif any(has_ties(o) or np.isnan(o).any() for o in outs) or not exact_ok:
                         ctx.count("skipped-for-correspondence:ranked-array-has-ties")
                     else:
                         reqs.append(f"refined {enc_mat(data)} {enc_mat(outs[0])} {enc_mats(outs[1:])}")
@@ -669,9 +787,13 @@ def run(ctx):
                 except Exception as e:  # noqa
                     got, tw, emb = "raise:" + type(e).__name__, None, None
             gseed = rng.randrange(1000)
-            reqs.append(f"twinsurr_k {dim} {delay} {enc_num(thr)} {md_eff} {gseed} {enc_vec(draws)} "
-                        f"{enc_mat(data)}")
+            reqs.append(f"twinsurr_kw {cbits} {dim} {delay} {enc_num(thr)} {md_eff} {gseed} "
+                        f"{enc_vec(draws)} {enc_mat(data)}")
             impl.append("raise:IndexError" if got == "raise:ValueError" else got)
+            if rng.random() < 0.2:
+                reqs.append(f"twinsurr_k {dim} {delay} {enc_num(thr)} {md_eff} {gseed} {enc_vec(draws)} "
+                            f"{enc_mat(data)}")
+                impl.append("raise:IndexError" if got == "raise:ValueError" else got)
             if rng.random() < 0.25:
                 reqs.append(f"twinsurr {dim} {delay} {enc_num(thr)} {md_eff} {enc_vec(draws)} "
                             f"{enc_mat(data)}")
@@ -694,8 +816,10 @@ def run(ctx):
                 # series in one call; its lists and the work arrays it leaves behind
                 R0 = np.array([[rng.randrange(2) for _ in range(nT)] for _ in range(nT)],
                               dtype=np.int8).reshape(nT, nT)
-                nR0 = np.array([rng.randrange(-3, 40) for _ in range(nT)], dtype=np.int16)
-                reqs.append(f"twins_k {enc_num(thr)} {md_eff} {enc_mats(emb)} {enc_imat(R0)} "
+                lim = 2 ** (cbits - 1)
+                nR0 = np.array([rng.choice([rng.randrange(-3, 40), -lim, lim - 1, 1, rng.randrange(-lim, lim)])
+                                for _ in range(nT)], dtype=cdtype)
+                reqs.append(f"twins_kw {cbits} {enc_num(thr)} {md_eff} {enc_mats(emb)} {enc_imat(R0)} "
                             f"{enc_ivec(nR0)}")
                 try:
                     tk = []
@@ -776,8 +900,18 @@ def run(ctx):
                          f"RecurrencePlot.twins/twin_surrogates raised {type(err).__name__}: {err}",
                          {"time_series": ts.tolist(), **kw, "min_dist": md, "n_surrogates": ns})
                 continue
-            reqs.append(f"rp_twins_k {md_eff} {enc_imat(R)}")
+            reqs.append(f"rp_twins_kw {md_eff} {enc_imat(R)}")
             impl.append(enc_imat(tw))
+            if rng.random() < 0.3:
+                reqs.append(f"rp_twins_k {md_eff} {enc_imat(R)}")
+                impl.append(enc_imat(tw))
+            ctx.count("rp-R:" + ("symmetric" if np.array_equal(R, R.T) else "asymmetric"))
+            # the method as a whole: twin search, walks, read-out of the state vectors
+            embv = np.array(rp.embedding, dtype=float)
+            if np.isfinite(embv).all() and np.isfinite(np.asarray(out, dtype=float)).all():
+                reqs.append(f"rp_twinsurr {md_eff} {ns_eff} {enc_vec(draws)} {enc_imat(R)} {enc_mat(embv)}")
+                impl.append(enc_mats(np.asarray(out, dtype=float)))
+                ctx.count("gen:RecurrencePlot.twin_surrogates-whole-method")
             if rng.random() < 0.3:
                 reqs.append(f"rp_twins {md_eff} {enc_imat(R)}")
                 impl.append(enc_imat(tw))
@@ -790,6 +924,126 @@ def run(ctx):
             ctx.count("rp-twins:" + ("some" if npairs else "none"))
             ctx.count("rp-args:" + form)
 
+    # ======================================================================
+    # E2: the kernel _twins_r at its own boundary on arbitrary square matrices (asymmetric,
+    #     all-zero rows, no diagonal) and arbitrary counter arrays
+    # ======================================================================
+    nk = 300 if quick else 2500
+    for c in range(nk):
+        n = rng.choice([0, 1, 2, 3, 4, 5, 6, 8, 11])
+        style = rng.choice(["random", "random", "few-row-types", "symmetric", "column-twins"])
+        if style == "few-row-types":
+            rows = [[rng.randrange(2) for _ in range(n)] for _ in range(2)]
+            Rk = np.array([rows[rng.randrange(2)] for _ in range(n)], dtype=np.int8).reshape(n, n)
+        elif style == "column-twins":
+            cols = [[rng.randrange(2) for _ in range(n)] for _ in range(2)]
+            Rk = np.array([cols[rng.randrange(2)] for _ in range(n)], dtype=np.int8).reshape(n, n).T.copy()
+        else:
+            Rk = np.array([[rng.randrange(2) for _ in range(n)] for _ in range(n)],
+                          dtype=np.int8).reshape(n, n)
+            if style == "symmetric":
+                Rk = np.maximum(Rk, Rk.T)
+        nRk = Rk.sum(axis=1).astype(np.int32) if rng.random() < 0.6 else \
+            np.array([rng.choice([0, 1, 2, 3, -1, 2 ** 31 - 1]) for _ in range(n)], dtype=np.int32)
+        md = rng.choice([0, 0, 1, 2, n + 1])
+        tk = []
+        try:
+            K._twins_r(md, n, Rk, nRk, tk)
+            got = enc_imat(tk)
+        except Exception as e:  # noqa
+            got = "raise:" + type(e).__name__
+        reqs.append(f"twins_rkw {md} {n} {enc_imat(Rk)} {enc_ivec(nRk)}")
+        impl.append(got)
+        ctx.case(("twins_r_kernel", Rk.tobytes().hex(), tuple(int(x) for x in nRk), md),
+                 n >= 4 and any(tk), None)
+        ctx.count(f"gen:_twins_r-kernel:{style}")
+        ctx.count("rp-R:" + ("symmetric" if np.array_equal(Rk, Rk.T) else "asymmetric"))
+
+    # ======================================================================
+    # F: one Surrogates object over a history of normalize / embedding setter / twins /
+    #    twin_surrogates calls — model `SObj.run` with the policy read off the source
+    # ======================================================================
+    nh = 250 if quick else 2000
+    for c in range(nh):
+        kind, data, tags = gen_data(rng, nprng, quick, kinds=("int", "dyadic", "periodic", "two-level",
+                                                             "constant"), variants=False)
+        N, n = data.shape
+        s = Surrogates(clone(data), silence_level=3)
+        ops, outs, names = [], [], []
+        normalized = False
+        last = None
+        for step in range(rng.choice([2, 3, 4, 5, 6])):
+            kindop = rng.choice(["t", "t", "t", "n", "w", "e"])
+            if kindop == "t" and last is not None and rng.random() < 0.6:
+                dim, delay, thr, md = last          # the same parameters again (same embedding shape)
+                if rng.random() < 0.3:
+                    thr = Fraction(rng.choice([1, 4, 8, 12]), 8)
+            else:
+                dim = rng.choice([1, 1, 2, 3])
+                delay = rng.choice([0, 1, 2])
+                if (dim - 1) * delay > n:
+                    dim, delay = 1, 0
+                thr = Fraction(rng.choice([0, 1, 2, 4, 4, 8, 12, 16, 64]), 8)
+                md = rng.choice([0, 0, 1, 2, 7])
+            cur = np.asarray(s.original_data, dtype=float)
+            if normalized and kindop in ("t", "w", "e"):
+                # after the float normalisation the differences are no longer exact in double:
+                # keep the threshold away from every difference so that the kernel's rounded
+                # comparison and the model's exact one decide alike
+                diffs = np.abs(cur[:, :, None] - cur[:, None, :]).ravel()
+                if diffs.size and np.min(np.abs(diffs - float(thr))) <= 1e-9 * max(1.0, float(thr)):
+                    ctx.count("history:skipped-threshold-too-close-to-a-difference")
+                    continue
+            try:
+                with quiet(), np.errstate(all="ignore"):
+                    if kindop == "n":
+                        s.normalize_original_data()
+                        nd = np.asarray(s.original_data, dtype=float)
+                        if not np.isfinite(nd).all():
+                            break
+                        normalized = True
+                        ops.append(f"n@{enc_mat(nd)}")
+                        outs.append("u")
+                    elif kindop == "e":
+                        e = Surrogates.embed_time_series_array(s.original_data, dim, delay)
+                        if rng.random() < 0.3 and e.size:
+                            e = e.copy()
+                            e[rng.randrange(N), rng.randrange(e.shape[1]), rng.randrange(dim)] += 1.0
+                        s.embedding = e
+                        ops.append(f"e@{enc_mats(e)}" if e.shape[1] else None)
+                        outs.append("u")
+                    elif kindop == "w":
+                        ops.append(f"w@{enc_num(thr)}@{md}")
+                        try:
+                            tw = s.twins(float(thr), md)
+                            outs.append(enc_mats(tw, enc_imat))
+                        except AttributeError:
+                            outs.append("raise")
+                    else:
+                        nT = n - (dim - 1) * delay
+                        draws = [Fraction(rng.choice([0, 2 ** 20 - 1, rng.randrange(2 ** 20),
+                                                      rng.randrange(2 ** 20)]), 2 ** 20)
+                                 for _ in range(N * (2 * max(nT, 0) + 3) + 4)]
+                        ops.append(f"t@{dim}@{delay}@{enc_num(thr)}@{md}@{enc_vec(draws)}")
+                        with patched(K, random=DrawProxy(draws)):
+                            outs.append(enc_mat(s.twin_surrogates(dim, delay, float(thr), md)))
+                        last = (dim, delay, thr, md)
+            except Exception as e:  # noqa
+                ctx.fail({"kind": "raises", "method": "history:" + kindop, "error": type(e).__name__},
+                         f"history step {kindop} raised {type(e).__name__}: {e}",
+                         {"data": data.tolist(), "history": names + [kindop]})
+                ops = [None]
+                break
+            names.append(kindop)
+        if not ops or any(o is None for o in ops):
+            continue
+        reqs.append(f"sobj {pol} {enc_mat(data)} {'~'.join(ops)}")
+        impl.append("~".join(outs))
+        ctx.case(("sobj", data.tobytes().hex(), tuple(ops)), n >= 4 and "t" in names and len(names) >= 3)
+        ctx.count("gen:object-history")
+        ctx.count("history:" + ("with" if "n" in names else "without") + "-normalize")
+        ctx.count(f"history:len={len(names)}")
+
     ctx.obligation("call structure: one memoised rfft and one irfft per correlated_noise_surrogates "
                    "call, one irfft per AAFT call and per refinement step", "correspondence",
                    not struct_bad, "\n".join(struct_bad[:5]))
@@ -798,7 +1052,23 @@ def run(ctx):
     model = common.driver("C15", reqs) if HAVE_DRIVER else []
     bad = []
     for i, (rq, im, mo) in enumerate(zip(reqs, impl, model)):
-        if isinstance(im, tuple):
+        if isinstance(im, tuple) and im[0] == "canon":
+            # equal up to the order among ties of the ranked array `key`: per row the sorted
+            # lists of (key value, output value) pairs agree
+            _, got_, key_ = im
+            try:
+                mrows = [] if mo == "E" else [[Fraction(x) for x in r.split(",")] if r != "-" else []
+                                              for r in mo.split(";")]
+                ok = len(mrows) == got_.shape[0] and all(
+                    sorted(zip([Fraction(float(v)) for v in key_[r]], mrows[r])) ==
+                    sorted(zip([Fraction(float(v)) for v in key_[r]],
+                               [Fraction(float(v)) for v in got_[r]]))
+                    for r in range(got_.shape[0]))
+            except Exception:  # noqa
+                ok = False
+            if not ok:
+                bad.append((i, mo, "equal up to tie order expected: " + enc_mat(got_)))
+        elif isinstance(im, tuple):
             if mo.startswith("raise:") or "#" not in mo:
                 bad.append((i, mo, "values"))
                 continue
@@ -1085,6 +1355,89 @@ def oracle(ctx, Surrogates, RecurrencePlot, rng, nprng, quick):
                          f"{g} changed original_data, later surrogates refer to different data", rep)
                 break
         ctx.case(("oracle", data.tobytes().hex(), seed, tuple(hist)), n >= 4)
+
+    # ---- twin surrogates after the data or the embedding changed on the object -----------
+    # (the embedding must follow original_data; memoised twins must follow the embedding)
+    nst = 150 if quick else 1200
+    for c in range(nst):
+        kind, data, tags = gen_data(rng, nprng, quick, kinds=("int", "dyadic", "periodic", "two-level",
+                                                             "float"), variants=False)
+        N, n = data.shape
+        dim = rng.choice([1, 1, 2, 3])
+        delay = rng.choice([0, 1, 2])
+        if (dim - 1) * delay > n:
+            dim, delay = 1, 0
+        thr = rng.choice([0.125, 0.5, 1.0, 0.3, 0.7])
+        md = rng.choice([0, 1, 2, 7])
+        seed = rng.randrange(2 ** 31)
+        pyrandom.seed(seed)
+        s = Surrogates(clone(data), silence_level=3)
+        script = rng.choice([["twin", "normalize", "twin"], ["twin", "twins", "normalize", "twin"],
+                             ["setter", "twins", "normalize", "twin"],
+                             ["twin", "normalize", "twins", "twin", "normalize", "twin"],
+                             ["twin", "setter-other", "twins", "twin"]])
+        rep = {"data": data.tolist(), "dimension": dim, "delay": delay, "threshold": thr,
+               "min_dist": md, "python_random_seed": seed, "history": script}
+        ctx.count("oracle:twin-after-state-change")
+        try:
+            with quiet(), np.errstate(all="ignore"):
+                for k_, op in enumerate(script):
+                    if op == "normalize":
+                        s.normalize_original_data()
+                    elif op == "setter":
+                        s.embedding = Surrogates.embed_time_series_array(s.original_data, dim, delay)
+                    elif op == "setter-other":
+                        s.embedding = Surrogates.embed_time_series_array(s.original_data[:, ::-1].copy(),
+                                                                         dim, delay)
+                    elif op == "twins":
+                        tw = s.twins(thr, md)
+                        eb = np.asarray(s.embedding, dtype=float)
+                        for i in range(N):
+                            Rb = brute_R(eb[i].reshape(eb.shape[1], eb.shape[2]), float(np.float32(thr)))
+                            if [sorted(x) for x in tw[i]] != twins_by_definition(Rb, md):
+                                ctx.fail({"kind": "twins-differ-from-definition", "class": "Surrogates",
+                                          "after": "history"},
+                                         "Surrogates.twins() is not the twin table of the embedding the "
+                                         "object holds now", dict(rep, step=k_, series=i))
+                                break
+                    else:
+                        cur = np.array(s.original_data, dtype=float)
+                        if not np.isfinite(cur).all():
+                            break
+                        out = s.twin_surrogates(dim, delay, thr, md)
+                        check_twin_surrogates(ctx, "Surrogates", out, s.twins(thr, md), cur, dim, delay,
+                                              thr, md, dict(rep, step=k_))
+        except Exception as e:  # noqa
+            ctx.fail({"kind": "raises", "method": "twin-history", "error": type(e).__name__},
+                     f"history {script} raised {type(e).__name__}: {e}", rep)
+        ctx.case(("oracle-twin-history", data.tobytes().hex(), dim, delay, thr, md, tuple(script), seed),
+                 n >= 4)
+
+    # ---- a series longer than the int16 range of the pinned neighbour counter (thorough tier;
+    #      R alone takes n_time^2 bytes = 4.3 GB, so only when memory allows) ---------------------
+    if not quick:
+        try:
+            avail = int(next(l for l in open("/proc/meminfo") if l.startswith("MemAvailable")).split()[1])
+        except Exception:  # noqa
+            avail = 0
+        if avail >= 16 * 1024 * 1024:
+            nL = 2 ** 16 + 1
+            sL = Surrogates(np.zeros((1, nL)), silence_level=3)
+            with quiet():
+                sL.embedding = Surrogates.embed_time_series_array(sL.original_data, 1, 0)
+                twL = sL.twins(0.5, nL - 3)
+            got = [twL[0][0], twL[0][1], twL[0][nL - 2], twL[0][nL - 1]]
+            exp = [[nL - 2, nL - 1], [nL - 1], [0], [0, 1]]
+            ctx.count("oracle:long-series-65537")
+            if [sorted(x) for x in got] != exp:
+                ctx.fail({"kind": "twins-differ-from-definition", "class": "Surrogates", "n_time": nL},
+                         "a constant series of 65537 samples: every state has 65537 neighbours, all "
+                         "separated pairs are twins, but twins() lists " + str(got),
+                         {"data": "np.zeros((1, 65537))", "dimension": 1, "delay": 0, "threshold": 0.5,
+                          "min_dist": nL - 3})
+            del sL, twL
+        else:
+            ctx.count("oracle:long-series-skipped-low-memory")
 
     # ---- RecurrencePlot twins on the unpatched code ---------------------------
     nrp = 400 if quick else 3000
